@@ -235,6 +235,18 @@ class Controller:
         info["settled"] = (kind, repr(c))
         info["settled_obj"] = value
         try:
+            ea = job.eval_args
+            info["eval_args"] = (tuple(ea[0]), dict(ea[1])) if ea else None
+            if ea and ea[0]:
+                fa = ea[0][0]
+                if isinstance(fa, (int, str)) and not isinstance(fa, bool):
+                    info["first_arg"] = fa
+                    info["first_arg_known"] = True
+        except Exception:
+            pass
+        self._settle_seq = getattr(self, "_settle_seq", 0) + 1
+        info["settle_seq"] = self._settle_seq
+        try:
             info["prov"] = job.recording_provenance()
         except Exception:
             info["prov"] = True
